@@ -1,5 +1,6 @@
 SPECIFICATION SpecO
 CONSTANTS MaxQ = 255
+  OtherBlowups <- SomeBlowups  OtherGrindings <- FewGrindings
   Blowups <- AllBlowups  Exts <- AllExts  Grindings <- SomeGrindings  FieldBits <- AllFieldBits  CRs <- AllCRs
 INVARIANT EmitO
 CHECK_DEADLOCK FALSE
